@@ -1,7 +1,7 @@
 (* Property C12: standard containers behave as their abstract models under any operation sequence.
    Only the property theorems, each closed by [exact] of a lemma and followed by Print Assumptions. *)
 From Coq Require Import ZArith List Bool Lia Arith Permutation.
-From C12 Require Import Gen Model ProofsBase ProofsVec ProofsSeq ProofsAL ProofsHM1 ProofsHM2 ProofsHM3 ProofsHM4 ProofsHM5 ProofsHM6 ProofsHash ProofsSB ProofsSBA ProofsOOM ProofsDL.
+From C12 Require Import Gen Model ProofsBase ProofsVec ProofsSeq ProofsAL ProofsHM1 ProofsHM2 ProofsFM ProofsHM3 ProofsHM4 ProofsHM5 ProofsHM6 ProofsHM7 ProofsHash ProofsSB ProofsSBA ProofsOOM ProofsDL.
 Import ListNotations.
 
 (* ---- vector: every operation of a well-formed vector returns what the list operation returns, leaves a
@@ -70,9 +70,12 @@ Print Assumptions C12_sequence_remove_guard.
    list al.  == must be symmetric and transitive and the hash must respect it; reflexivity is NOT assumed, so
    float keys including NaN are covered (a NaN key is never found and every assignment to it adds a binding,
    in the implementation as in the association-list specification).
-   Every operation of the driver, from related states, either reports the model-level usize overflow of
-   roundpow2 or returns the association-list operation's result and re-establishes the relation; lookups
-   agree exactly, iterations return a permutation of the bindings (each exactly once). *)
+   Every operation of the driver, from related states, returns the association-list operation's result and
+   re-establishes the relation; lookups agree exactly, iterations return a permutation of the bindings (each
+   exactly once).  The only other outcome is the model-level usize overflow of roundpow2, and it is bounded: it
+   needs a request of more than 2^62 buckets ([hop_request], computed from the operation and the number of
+   bindings of the SPECIFICATION's state), so it is excluded for every map with fewer than 2^60 bindings
+   (C12_hashmap_no_overflow_below_2p60). *)
 Theorem C12_hashmap_step_refines_map :
   forall (K V : Type) (kdflt : K) (vdflt : V) (keqb : K -> K -> bool) (khash : K -> Z),
   (forall a b, keqb a b = keqb b a) ->
@@ -80,7 +83,8 @@ Theorem C12_hashmap_step_refines_map :
   (forall a b, keqb a b = true -> khash a = khash b) ->
   forall (o : hop K V) (m : hmap K V) (al : list (K * V)),
   hm_R K V keqb khash m al ->
-  hm_step K V kdflt vdflt keqb khash o m = Trap TrapOverflow \/
+  (hm_step K V kdflt vdflt keqb khash o m = Trap TrapOverflow /\
+   (2 ^ 62 < Z.of_nat (hop_request K V o (length al)))%Z) \/
   exists m' r al' r', hm_step K V kdflt vdflt keqb khash o m = Ok (m', r) /\
     al_step K V vdflt keqb o al = Ok (al', r') /\ hm_R K V keqb khash m' al' /\ ret_rel K V r r'.
 Proof. exact hm_step_refines. Qed.
@@ -93,11 +97,34 @@ Theorem C12_hashmap_history_refines_map :
   (forall a b, keqb a b = true -> khash a = khash b) ->
   forall (ops : list (hop K V)) (m : hmap K V) (al : list (K * V)),
   hm_R K V keqb khash m al ->
-  hm_run K V kdflt vdflt keqb khash ops m = Trap TrapOverflow \/
+  (hm_run K V kdflt vdflt keqb khash ops m = Trap TrapOverflow /\
+   exists pre o post al0 rs0, ops = pre ++ o :: post /\ al_run K V vdflt keqb pre al = Ok (al0, rs0) /\
+     (2 ^ 62 < Z.of_nat (hop_request K V o (length al0)))%Z) \/
   exists m' rs al' rs', hm_run K V kdflt vdflt keqb khash ops m = Ok (m', rs) /\
     al_run K V vdflt keqb ops al = Ok (al', rs') /\ hm_R K V keqb khash m' al' /\ Forall2 (ret_rel K V) rs rs'.
 Proof. exact hm_run_refines. Qed.
 Print Assumptions C12_hashmap_history_refines_map.
+
+(* the Overflow outcome is unreachable for maps of any realistic size: fewer than 2^60 bindings, counts given to
+   reserve/rehash below 2^60 (for a whole history: initial bindings + number of operations below 2^60) *)
+Theorem C12_hashmap_no_overflow_below_2p60 :
+  forall (K V : Type) (kdflt : K) (vdflt : V) (keqb : K -> K -> bool) (khash : K -> Z),
+  (forall a b, keqb a b = keqb b a) ->
+  (forall a b c, keqb a b = true -> keqb b c = true -> keqb a c = true) ->
+  (forall a b, keqb a b = true -> khash a = khash b) ->
+  (forall (o : hop K V) (m : hmap K V) (al : list (K * V)), hm_R K V keqb khash m al ->
+     (Z.of_nat (length al) < 2 ^ 60)%Z -> (Z.of_nat (hop_count K V o) < 2 ^ 60)%Z ->
+     hm_step K V kdflt vdflt keqb khash o m <> Trap TrapOverflow) /\
+  (forall (ops : list (hop K V)) (m : hmap K V) (al : list (K * V)), hm_R K V keqb khash m al ->
+     (Z.of_nat (length al + length ops) < 2 ^ 60)%Z ->
+     (forall o, In o ops -> (Z.of_nat (hop_count K V o) < 2 ^ 60)%Z) ->
+     hm_run K V kdflt vdflt keqb khash ops m <> Trap TrapOverflow).
+Proof.
+  intros K V kdflt vdflt keqb khash Hs Ht Hc. split.
+  - exact (hm_step_no_overflow K V kdflt vdflt keqb khash Hs Ht Hc).
+  - exact (hm_run_no_overflow K V kdflt vdflt keqb khash Hs Ht Hc).
+Qed.
+Print Assumptions C12_hashmap_no_overflow_below_2p60.
 
 Theorem C12_hashmap_empty_related :
   forall (K V : Type) (keqb : K -> K -> bool) (khash : K -> Z), hm_R K V keqb khash (hm_empty K V) [].
@@ -161,7 +188,7 @@ Theorem C12_hashmap_irreflexive_keys :
   forall (m : hmap K V) (k : K) (v : V), hm_inv K V keqb khash m -> keqb k k = false ->
   hm_peek K V keqb khash k m = Ok None /\
   (exists m', hm_remove K V kdflt vdflt keqb khash k m = Ok (m', None) /\ hm_abs K V m' = hm_abs K V m) /\
-  (hm_set K V kdflt vdflt keqb khash k v m = Trap TrapOverflow \/
+  ((hm_set K V kdflt vdflt keqb khash k v m = Trap TrapOverflow /\ (2 ^ 62 < Z.of_nat (at_request (hsize K V m)))%Z) \/
    exists m', hm_set K V kdflt vdflt keqb khash k v m = Ok m' /\ hm_inv K V keqb khash m' /\
               Permutation (hm_abs K V m') ((k, v) :: hm_abs K V m)).
 Proof. exact hm_irrefl_key. Qed.
@@ -172,16 +199,73 @@ Theorem C12_hashmap_rehash_preserves_bindings :
   forall (K V : Type) (kdflt : K) (vdflt : V) (keqb : K -> K -> bool) (khash : K -> Z),
   (forall a b, keqb a b = keqb b a) ->
   forall (n : nat) (m : hmap K V), hm_inv K V keqb khash m ->
-  hm_rehash K V kdflt vdflt keqb khash n m = Trap TrapOverflow \/
+  (hm_rehash K V kdflt vdflt keqb khash n m = Trap TrapOverflow /\
+   (2 ^ 62 < Z.of_nat (Nat.max n (ceilidiv (hsize K V m * 100) HM_MAXLF_n)))%Z) \/
   exists m', hm_rehash K V kdflt vdflt keqb khash n m = Ok m' /\ hm_inv K V keqb khash m' /\ hm_abs K V m' = hm_abs K V m.
-Proof. exact hm_rehash_op. Qed.
+Proof.
+  intros K V kdflt vdflt keqb khash Hs n m I.
+  destruct (hm_rehash_op K V kdflt vdflt keqb khash Hs n m I) as [(A & B & _)|(m' & A & B & C & _)]; [left; auto|right; eauto].
+Qed.
 Print Assumptions C12_hashmap_rehash_preserves_bindings.
 
-(* the observable behaviour does not depend on the hash function: two runs of the same history from related
-   states with two hash functions that both respect == return the same lookup results, values and lengths and end
-   with the same bindings.  What the theorem leaves free: the ORDER in which pairs() / erase-while-iterating list
-   the bindings (HList results are related by Permutation, as are the final binding lists), and the allocation
-   figures capacity()/bucketcount()/loadfactor(), which it does not mention. *)
+(* ---- the hashmap is a flat map: with ANY hash function that respects ==, every operation behaves exactly as the
+   hash-free reference [fm_step] (Model.v: lookup by scanning the node array; the type of fm_step has no hash
+   argument) on the canonical form of the state.  [canon] forgets only the bucket heads and the next links of
+   filled nodes; it keeps the node array (keys, values, flags, free-list links), the size, the free head and the
+   number of buckets.  Results are EQUAL (for pairs()/erase-while-iterating: the same bindings in the same order),
+   and Overflow happens in both or in neither. *)
+Theorem C12_hashmap_is_flat_map :
+  forall (K V : Type) (kdflt : K) (vdflt : V) (keqb : K -> K -> bool) (khash : K -> Z),
+  (forall a b, keqb a b = keqb b a) ->
+  (forall a b c, keqb a b = true -> keqb b c = true -> keqb a c = true) ->
+  (forall a b, keqb a b = true -> khash a = khash b) ->
+  (forall (o : hop K V) (m : hmap K V), hm_inv K V keqb khash m ->
+     (hm_step K V kdflt vdflt keqb khash o m = Trap TrapOverflow /\
+      fm_step K V kdflt vdflt keqb o (canon K V m) = Trap TrapOverflow /\
+      (2 ^ 62 < Z.of_nat (hop_request K V o (hsize K V m)))%Z) \/
+     exists m' r, hm_step K V kdflt vdflt keqb khash o m = Ok (m', r) /\ hm_inv K V keqb khash m' /\
+                  fm_step K V kdflt vdflt keqb o (canon K V m) = Ok (canon K V m', r)) /\
+  (forall (ops : list (hop K V)) (m : hmap K V), hm_inv K V keqb khash m ->
+     (hm_run K V kdflt vdflt keqb khash ops m = Trap TrapOverflow /\
+      fm_run K V kdflt vdflt keqb ops (canon K V m) = Trap TrapOverflow) \/
+     exists m' rs, hm_run K V kdflt vdflt keqb khash ops m = Ok (m', rs) /\ hm_inv K V keqb khash m' /\
+                   fm_run K V kdflt vdflt keqb ops (canon K V m) = Ok (canon K V m', rs)).
+Proof.
+  intros K V kdflt vdflt keqb khash Hs Ht Hc. split.
+  - exact (hm_step_flat K V kdflt vdflt keqb khash Hs Ht Hc).
+  - exact (hm_run_flat K V kdflt vdflt keqb khash Hs Ht Hc).
+Qed.
+Print Assumptions C12_hashmap_is_flat_map.
+
+(* hence nothing observable depends on the hash function: two runs of the same history, with two hash functions
+   that both respect ==, from states with the same canonical form (e.g. both empty), return EQUAL result lists
+   (iteration order included) and end in states with the same canonical form - so the same bindings in the same
+   order, the same #m, capacity() and bucketcount() (second part).  This is what lets the extracted model run
+   with a hash on value tokens while the implementation hashes the real values. *)
+Theorem C12_hashmap_hash_independent_exact :
+  forall (K V : Type) (kdflt : K) (vdflt : V) (keqb : K -> K -> bool) (h1 h2 : K -> Z),
+  (forall a b, keqb a b = keqb b a) ->
+  (forall a b c, keqb a b = true -> keqb b c = true -> keqb a c = true) ->
+  (forall a b, keqb a b = true -> h1 a = h1 b) -> (forall a b, keqb a b = true -> h2 a = h2 b) ->
+  (forall (ops : list (hop K V)) (m1 m2 : hmap K V),
+     hm_inv K V keqb h1 m1 -> hm_inv K V keqb h2 m2 -> canon K V m1 = canon K V m2 ->
+     (hm_run K V kdflt vdflt keqb h1 ops m1 = Trap TrapOverflow /\ hm_run K V kdflt vdflt keqb h2 ops m2 = Trap TrapOverflow) \/
+     exists m1' m2' rs,
+       hm_run K V kdflt vdflt keqb h1 ops m1 = Ok (m1', rs) /\
+       hm_run K V kdflt vdflt keqb h2 ops m2 = Ok (m2', rs) /\
+       hm_inv K V keqb h1 m1' /\ hm_inv K V keqb h2 m2' /\ canon K V m1' = canon K V m2') /\
+  (forall m1 m2 : hmap K V, canon K V m1 = canon K V m2 ->
+     hm_abs K V m1 = hm_abs K V m2 /\ hm_len K V m1 = hm_len K V m2 /\ hm_capacity K V m1 = hm_capacity K V m2 /\
+     hm_bucketcount K V m1 = hm_bucketcount K V m2 /\ hfree K V m1 = hfree K V m2).
+Proof.
+  intros K V kdflt vdflt keqb h1 h2 Hs Ht H1 H2. split.
+  - exact (hm_hash_independent_exact K V kdflt vdflt keqb h1 h2 Hs Ht H1 H2).
+  - exact (canon_observables K V).
+Qed.
+Print Assumptions C12_hashmap_hash_independent_exact.
+
+(* the weaker form for runs that start from states related only through an association list (their node orders
+   may already differ): results agree up to the order of iteration results. *)
 Theorem C12_hashmap_hash_independent :
   forall (K V : Type) (kdflt : K) (vdflt : V) (keqb : K -> K -> bool) (h1 h2 : K -> Z),
   (forall a b, keqb a b = keqb b a) ->
@@ -236,6 +320,16 @@ Proof.
 Qed.
 Print Assumptions C12_hash_coherent_aggregates.
 
+(* the byte loop of lhash (strings, spans of bytes, raw bytes of pointers/unions) is total: for step >= 1 the fuel
+   S(#data) of the model suffices and every data[len-1] read lies inside the data, so the model's fuel-exhaustion
+   answer and out-of-range default are dead code and hash_short/hash_long are the loop's genuine results *)
+Theorem C12_hash_byte_loop_total :
+  (forall data seed step, (1 <= step)%Z -> lhash_o data seed step = Some (lhash data seed step)) /\
+  (forall data, lhash_o data HASH_SEED 1 = Some (hash_short data) /\
+                lhash_o data HASH_SEED (Z.shiftr (Z.of_nat (length data)) 5 + 1) = Some (hash_long data)).
+Proof. split; [exact lhash_total|exact hash_bytes_total]. Qed.
+Print Assumptions C12_hash_byte_loop_total.
+
 Theorem C12_hash_coherent_integer_boolean :
   (forall a b : Z, (a =? b)%Z = true -> hash_int a = hash_int b) /\
   (forall a b : bool, Bool.eqb a b = true -> hash_bool a = hash_bool b).
@@ -243,15 +337,17 @@ Proof. split; [exact hash_int_coherent|exact hash_bool_coherent]. Qed.
 Print Assumptions C12_hash_coherent_integer_boolean.
 
 (* ---- stringbuilder: refinement to the byte string, for every operation used within its documented
-   protocol ([sb_op_ok]: at most the n prepared bytes are written before commit); [sb_wf] includes the NUL slot
+   protocol.  One step: [sb_op_ok_at b]: the client of prepare(n) writes no more bytes than the span prepare
+   returned in that state holds (capacity - size - 1 >= n).  Histories: the static sufficient condition [sb_op_ok]
+   (at most the n bytes asked for), which implies the former in every well-formed state; [sb_wf] includes the NUL slot
    (size < capacity, every byte from size on is zero) and capacity >= INIT_CAPACITY once allocated.
    With the repaired commit the refinement also covers BCommitOver (it traps, as the byte-string spec says). *)
-Theorem C12_stringbuilder_step_refines_bytes : forall (o : bop) (b : sb), sb_wf b -> sb_op_ok o ->
+Theorem C12_stringbuilder_step_refines_bytes : forall (o : bop) (b : sb), sb_wf b -> sb_op_ok_at b o ->
   match by_step o (sb_view b) with
   | Ok (l', r) => exists b', sb_step o b = Ok (b', r) /\ sb_wf b' /\ sb_view b' = l'
   | Trap t => sb_step o b = Trap t
   end.
-Proof. exact sb_step_refines. Qed.
+Proof. exact sb_step_refines_at. Qed.
 Print Assumptions C12_stringbuilder_step_refines_bytes.
 
 Theorem C12_stringbuilder_history_refines_bytes : forall (ops : list bop) (b : sb), sb_wf b -> Forall sb_op_ok ops ->
@@ -296,7 +392,24 @@ Theorem C12_stringbuilder_allocation_failure : forall (ok : nat -> bool) (o : bo
 Proof. exact sb_step_a_refines. Qed.
 Print Assumptions C12_stringbuilder_allocation_failure.
 
-(* ---- span: the bounds guards fire exactly when the index / range is invalid *)
+(* ---- span: the fat-pointer implementation (offset, size over some storage; s[i] = check + raw access, sub =
+   check + pointer arithmetic) answers exactly as the list of the span's elements: an index outside the window is
+   stopped by 'index out of range', an accepted access never leaves the window, and sub returns a span that is
+   inside the storage and inside the parent window and views the expected sub-list (composes through nesting). *)
+Theorem C12_span_window_refines_list : forall (T : Type) (mem : list T) (s : spanw), sp_wf mem s ->
+  (forall i, spw_at T i mem s = span_at T i (sp_view T mem s)) /\
+  (forall i j, match span_sub T i j (sp_view T mem s) with
+               | Ok l => exists s', spw_sub i j s = Ok s' /\ sp_wf mem s' /\ sp_view T mem s' = l /\
+                           (sp_size s' = 0 \/ (sp_off s <= sp_off s' /\ sp_off s' + sp_size s' <= sp_off s + sp_size s))
+               | Trap t => spw_sub i j s = Trap t
+               end).
+Proof.
+  intros T mem s W. split; [intro i; apply span_window_at; assumption|intros i j; apply span_window_sub; assumption].
+Qed.
+Print Assumptions C12_span_window_refines_list.
+
+(* the list-level specification itself, unfolded (definitional: it restates span_at/span_sub; kept as the reading
+   of the right-hand side of the theorem above) *)
 Theorem C12_span_guards : forall (T : Type) (i j : nat) (s : list T),
   ((i < length s -> exists x, span_at T i s = Ok x /\ nth_error s i = Some x) /\
    (length s <= i -> span_at T i s = Trap TrapIndex)) /\
